@@ -86,7 +86,7 @@ func init() {
 		Setup:       validateOracle,
 		Timeout:     minutes(10, 90),
 		Cases: func(tier string, seed int64) []fw.Case {
-			return mkCases(nil, "games", 64, seed, pick(tier, 60, 4000))
+			return mkCases(nil, "games", 64, seed, pick(tier, 250, 4000))
 		},
 		Floors: func(string) map[string]int64 {
 			return map[string]int64{
@@ -125,8 +125,8 @@ func init() {
 		Setup:       validateOracle,
 		Timeout:     minutes(10, 90),
 		Cases: func(tier string, seed int64) []fw.Case {
-			l := mkCases(nil, "games", 48, seed, pick(tier, 40, 3000))
-			l = mkCases(l, "sensitivity", 16, seed, pick(tier, 300, 30000))
+			l := mkCases(nil, "games", 48, seed, pick(tier, 160, 3000))
+			l = mkCases(l, "sensitivity", 16, seed, pick(tier, 1000, 30000))
 			return l
 		},
 		Floors: func(string) map[string]int64 {
@@ -192,7 +192,7 @@ func init() {
 		Setup:       validateOracle,
 		Timeout:     minutes(10, 90),
 		Cases: func(tier string, seed int64) []fw.Case {
-			return mkCases(nil, "ops", 64, seed, pick(tier, 25, 2500))
+			return mkCases(nil, "ops", 64, seed, pick(tier, 100, 2500))
 		},
 		Floors: func(string) map[string]int64 {
 			return map[string]int64{"pops": 5000, "forks": 200, "pop_castle": 10, "pop_ep": 1, "pop_promotion": 10, "pop_capture": 500, "scratch_compares": 1000, "illegal_pushes": 200, "pop_at_root": 10,
